@@ -70,6 +70,20 @@ CHECKS = {
         technique='symbolic execution of the real Python code (CrossHair/z3): inductive step over a symbolic pre-state',
         engine='E1',
     ),
+    'C04': dict(
+        category='other',
+        text=('Bounded symbolic execution (CrossHair + z3) of the real Executor.set_cells/get_cell/handle_cell/Cell and the emitted '
+              '_cell_preprocessor over the class the real Parser emits for a two-sheet workbook; per condition the override targets are concrete '
+              '(all 49 ordered pairs of 7 target kinds) and the values, addressing style and queried cell are symbolic; the oracle is the '
+              'workbook re-translated by the real Parser with constants at the overridden positions, evaluated with the last-write map. '
+              'Because Cell.__hash__ hashes the value, the engine realises values early: the solver enumerates the bounded history space '
+              'rather than abstracting it - stated as such.'),
+        design_ref='DESIGN.md section 6 / C04',
+        note=('histories of at most 3 writes; values in small integer ranges plus a 5-value falsy/text family; set-iteration orders other than the '
+              "running process's are not explored; one known finding (whole-column reference vs override below the used range) is partitioned out."),
+        technique='symbolic execution of the real Python code (CrossHair/z3) against a re-translated edited workbook as reference',
+        engine='E1',
+    ),
 }
 
 NOT_YET = {}   # filled below for every property without a check
